@@ -1,9 +1,10 @@
 (* C13 - property theorems only. Statements are about the Mech model of the pinned code (Model.v:
    mech_match, encode/decode, m_step, m_chain, m_qmark, classify, try_like, m_run_a/q/t) and its relation
    to the Spec (spec_match, s_step, s_chain, spec_try, s_run_a/q/t). Proofs: MatchLemmas.v, Transport.v,
-   Chain.v, Try.v, Suite.v, Seq.v (ModelSeq.v: families R and S - state carried between evaluations). *)
+   Chain.v, Try.v, Suite.v, Seq.v (ModelSeq.v: families R and S - state carried between evaluations), Nest.v (ModelNest.v:
+   struct / enum payloads and statements executed again in one scope - families L, LT, LQ). *)
 From Coq Require Import List ZArith Bool Ascii String Arith.
-From Cb Require Import C13.Model C13.ModelSeq C13.MatchLemmas C13.Transport C13.Chain C13.Try C13.Suite C13.Seq.
+From Cb Require Import C13.Model C13.ModelSeq C13.ModelNest C13.MatchLemmas C13.Transport C13.Chain C13.Try C13.Suite C13.Seq C13.Nest.
 Import ListNotations.
 Local Open Scope Z_scope.
 
@@ -349,6 +350,152 @@ Proof. exact (conj seq_history_free_l seq_stops_at_failure_l). Qed.
 Print Assumptions sequence_history_free.
 
 (* ------------------------------------------------------------------ non-vacuity *)
+(* ------------------------------------------------------------------ struct / enum payloads, statements executed again in one scope *)
+(* payload := int | long | string | none | struct of scalars | enum value: every value without an empty string (at any
+   depth) and without a payload-less enum value below the top level is read back exactly as it was built - variant,
+   payload kind, every struct member, the inner variant and its payload, at every depth *)
+Theorem nested_payload_roundtrip_partial : forall v, good_top v = true -> n_decode (n_build v) = v.
+Proof. exact nested_roundtrip_l. Qed.
+Print Assumptions nested_payload_roundtrip_partial.
+
+(* the nested model is the scalar model of Model.v on values without associated_value: same construction, same transport
+   steps (so every theorem above speaks about the same functions) *)
+Theorem nested_model_conservative : forall steps c,
+  n_build (nval_of_cval c) = lift (encode c) /\
+  fold_left n_step steps (lift (encode c)) = lift (fold_left m_step steps (encode c)).
+Proof. intros steps c. split; [apply build_lift|apply nested_conservative_l]. Qed.
+Print Assumptions nested_model_conservative.
+
+(* any list of steps sound for the payload's shape - declaration from a variable always; assignment, argument passing
+   and return for every value with a payload, also a struct / enum payload; declaration from a call only for an integer
+   payload - leaves the Variable, with its whole nested payload, unchanged *)
+Theorem nested_value_preserved_partial : forall steps x p,
+  forallb (nstep_ok (VE x p)) steps = true -> fold_left n_step steps (n_build (VE x p)) = n_build (VE x p).
+Proof. exact nested_value_preserved_l. Qed.
+Print Assumptions nested_value_preserved_partial.
+
+(* the named binding of the selected arm is the payload: the struct with every member, the inner enum value (which
+   itself reads back exactly) *)
+Theorem nested_match_binds_payload : forall x q, good_nv q = true ->
+  exists i s a, n_build (VE x (Some q)) = NVEnum x true i s a /\ n_bound i s a = bound_of q /\
+                match q with
+                | VR fs => n_bound i s a = BdObj (NVRec fs)
+                | VE y p => n_bound i s a = BdObj (n_build (VE y p)) /\ n_decode (n_build (VE y p)) = VE y p
+                | _ => True
+                end.
+Proof. exact nested_binding_l. Qed.
+Print Assumptions nested_match_binds_payload.
+
+(* the whole match statement - ANY arm list for the outer match, the inner matches the declared types dictate - on a
+   built value is the property's own match on the value, for every type and every depth *)
+Theorem nested_match_refines_spec : forall t v arms, good_top v = true ->
+  n_match_run t (n_build v) arms = s_match_run t v arms.
+Proof. exact match_run_refines. Qed.
+Print Assumptions nested_match_refines_spec.
+
+(* a declaration that runs again in the same scope: with the erase the code performs, the Variable is exactly the new
+   one whatever the previous execution left; without it, the new value is stored correctly IFF the kept
+   associated_value is the new one - i.e. exactly the class of change "keep the scope entry" breaks the property, and
+   only through struct / enum payloads *)
+Theorem redeclare_needs_erase :
+  (forall slot new, m_declare true slot new = new) /\
+  (forall old x h i s a, m_declare false (Some old) (NVEnum x h i s a) = NVEnum x h i s a <-> n_assoc old = a).
+Proof. exact (conj declare_erase_fresh_l declare_needs_erase_l). Qed.
+Print Assumptions redeclare_needs_erase.
+
+(* one execution of a loop body - ANY program of family L, conforming or not: what it prints and the value it leaves in
+   the outer variable w are functions of w and of this execution's own value; the Variables v0, v1, .. the previous
+   executions left in the scope do not matter; the whole loop is the fold of that function *)
+Theorem loop_history_free : forall p,
+  (forall sl w v, (snd (fst (l_iter true sl w p v)), snd (l_iter true sl w p v)) = c_iter w p v) /\
+  (forall vals k sl w, l_loop true p k sl w vals = c_loop p k w vals).
+Proof. intro p. split; [intros; apply iter_history_free_l|apply loop_slots_irrelevant]. Qed.
+Print Assumptions loop_history_free.
+
+(* conforming loop programs (safe_l): Mech = Spec, for every type, payload kind and depth, every number of executions,
+   every pipeline of declarations / assignments / parameters / the outer variable; and every single execution prints
+   what the Spec prints for ITS value, from any state the earlier executions left *)
+Theorem loop_refines_spec_partial :
+  (forall p, safe_l p = true -> m_run_l p = s_run_l p) /\
+  (forall p sl w v, safe_l p = true -> In v (pl_vals p) -> snd (l_iter true sl w p v) = s_iter p v).
+Proof. exact (conj loop_refines_l loop_iteration_l). Qed.
+Print Assumptions loop_refines_spec_partial.
+
+(* the seeded class of change as a witness: the same program without the erase stops printing the executions' own
+   payloads at the second execution *)
+Theorem loop_without_erase_refuted :
+  safe_l loop_demo = true /\ m_run_l loop_demo = s_run_l loop_demo /\ m_run_l_with false loop_demo <> s_run_l loop_demo.
+Proof.
+  split; [exact (proj1 loop_example_l)|]. split; [apply loop_refines_l; exact (proj1 loop_example_l)|].
+  exact (proj2 (proj2 loop_without_erase_refuted_l)).
+Qed.
+Print Assumptions loop_without_erase_refuted.
+
+(* the defects of the pinned code on nested payloads (known findings), as witnesses *)
+Theorem nested_value_preserved_refuted_decl_from_call :
+  let p := mkPL false ty_u SrcCallVar [] FinVar arms_u [v_p 3 4] w_u in
+  m_run_l p = mkNR [NEIter 0] XNotStruct /\
+  s_run_l p = mkNR [NEIter 0; NEArm [1%nat] (LfRec [SInt 3; SInt 4]); NEAfter; NEDone] XOk.
+Proof. exact nested_decl_from_call_refuted_l. Qed.
+Print Assumptions nested_value_preserved_refuted_decl_from_call.
+Theorem nested_value_preserved_refuted_return_constructor :
+  let p := mkPL false ty_u SrcCons [] FinMk arms_u [v_r_err (s2l "bad")] w_u in
+  m_run_l p = mkNR [NEIter 0] XNotEnum /\
+  s_run_l p = mkNR [NEIter 0; NEArm [2%nat; 1%nat] (LfStr (s2l "bad")); NEAfter; NEDone] XOk.
+Proof. exact nested_return_constructor_refuted_l. Qed.
+Print Assumptions nested_value_preserved_refuted_return_constructor.
+Theorem nested_payload_roundtrip_refuted_payloadless_inner :
+  let t := TOpt (TOpt TInt) in
+  let p := mkPL true t SrcCons [] FinVar [PatVar (s2l "Some") BName; PatVar (s2l "None") BNo]
+                [VE (s2l "Some") (Some (VE (s2l "None") None))] (mkC (s2l "None") PNone) in
+  m_run_l p = mkNR [NEIter 0] XNotEnum /\
+  s_run_l p = mkNR [NEIter 0; NEArm [0%nat; 1%nat] LfNo; NEAfter; NEDone] XOk.
+Proof. exact nested_payloadless_inner_refuted_l. Qed.
+Print Assumptions nested_payload_roundtrip_refuted_payloadless_inner.
+Theorem loop_refuted_outer_assign_payloadless :
+  let p := mkPL false ty_u SrcCons [LOutVar] FinVar arms_u [v_p 3 4; VE (s2l "N") None] w_u in
+  m_run_l p = mkNR [NEIter 0; NEArm [1%nat] (LfRec [SInt 3; SInt 4]); NEAfter;
+                    NEIter 1; NEArm [1%nat] (LfRec [SInt 3; SInt 4]); NEAfter; NEDone] XOk /\
+  s_run_l p = mkNR [NEIter 0; NEArm [1%nat] (LfRec [SInt 3; SInt 4]); NEAfter;
+                    NEIter 1; NEArm [3%nat] LfNo; NEAfter; NEDone] XOk.
+Proof. exact loop_outer_assign_payloadless_refuted_l. Qed.
+Print Assumptions loop_refuted_outer_assign_payloadless.
+
+(* `R r = try e;` / `checked e` executed again and again with fresh operands: Mech = Spec for every expression and every
+   operand list that never yields the empty string, and the Variable the previous execution left in r is irrelevant *)
+Theorem loop_try_refines_spec_partial :
+  (forall p, safe_lt p = true -> m_run_lt p = s_run_lt p) /\
+  (forall p ops k slot, lt_loop true p k slot ops = lt_loop true p k None ops).
+Proof. exact (conj loop_try_refines_l loop_try_history_free_l). Qed.
+Print Assumptions loop_try_refines_spec_partial.
+
+(* `f(i)?` executed again and again inside one function: every Ok / Some yields its own payload, the first Err / None
+   ends the function with that very value and nothing after it runs - every context, both operand forms *)
+Theorem loop_qmark_refines_spec_partial : forall p, safe_lq p = true -> m_run_lq p = s_run_lq p.
+Proof. exact loop_qmark_refines_l. Qed.
+Print Assumptions loop_qmark_refines_spec_partial.
+
+Example safe_l_example :
+  safe_l loop_demo = true /\
+  m_run_l loop_demo =
+    mkNR [NEIter 0; NEArm [1%nat] (LfRec [SInt 3; SInt 4]); NEAfter; NEBack 1;
+          NEIter 1; NEArm [2%nat; 1%nat] (LfStr (s2l "bad")); NEAfter; NEBack 1;
+          NEIter 2; NEArm [0%nat] (LfInt 5); NEAfter; NEBack 1;
+          NEIter 3; NEArm [1%nat] (LfRec [SInt 7; SInt 8]); NEAfter; NEBack 1;
+          NEIter 4; NEArm [2%nat; 0%nat] (LfInt 9); NEAfter; NEBack 1; NEDone] XOk.
+Proof. exact loop_example_l. Qed.
+Example safe_lq_lt_example :
+  (let p := mkLQ KResult QDecl OpCall [QOOk 10; QOOk 20; QOFail (PStr (s2l "e2")); QOOk 40] in
+   safe_lq p = true /\
+   m_run_lq p = mkNR [NEIter 0; NEPost 0 (LfInt 10); NEIter 1; NEPost 1 (LfInt 20); NEIter 2;
+                      NEArm [1%nat] (LfStr (s2l "e2")); NEAfter] XOk) /\
+  (let p := mkLT true (TEStr (SIdx CA)) [mkLO 1 0 [] []; mkLO 3 0 [] []; mkLO 2 0 [] []] in
+   safe_lt p = true /\
+   m_run_lt p = mkNR [NEIter 0; NEArm [0%nat] (LfStr (s2l "bob"));
+                      NEIter 1; NEArm [1%nat] (LfStr (s2l "IndexOutOfBoundsError: Array index out of bounds"));
+                      NEIter 2; NEArm [0%nat] (LfStr (s2l "cy")); NEDone] XOk).
+Proof. exact (conj loop_qmark_example_l loop_try_example_l). Qed.
+
 Example safe_a_example :
   let p := mkA true (mkC (s2l "Err") (PStr (s2l "boom"))) SrcCons [StDeclVar; StParam; StAsgCall (mkC (s2l "Ok") (PInt 1))]
                FinCall [PatVar (s2l "Ok") BName; PatVar (s2l "Err") BName] in
